@@ -21,7 +21,7 @@ ASSUMPTIONS = [
     "the path-based route sampler's choices only influence which valid routes enter the pool, never admissibility (modelled by an arbitrary choice oracle)",
     "real-valued MIRP instances: only the oracle on the real code (exact evaluation of the object's own float data converted with Fraction)",
 ]
-PARTIAL = ["'the sequence-based heuristic always succeeds (L >= 3)' is decided by the oracle on every run, not by a theorem (soundness of all three heuristics and totality of the path-based one are theorems)"]
+PARTIAL = []
 TRUSTED = ["C09 path-based soundness assumes the route sampler returns one of the candidates it is offered (numpy.random.choice over the dict keys); without it the model is refuted in Lean (path_makeFeasible_unsound_without_hpick)"]
 BUDGET_S = {"quick": 150, "thorough": 1500}
 G1_H = [12, 15.5, 20, 25, 31]
